@@ -129,6 +129,14 @@ func Programs08(tier string) []Program {
 			}
 		}
 	}
+	// two publishers against a third party (quick leaves multisets out of the generic triples)
+	for _, st := range inits[1:] {
+		for _, c := range []string{"Consume:-2,40", "Consume:2,40", "Delete:1", "Get:-1", "ConsumeByKey:0,-2,40", "NextOffset", "GC:0"} {
+			add(Program{Cfg: cfgBoth, Init: st.init, Threads: [][]string{{"Publish:1"}, {"Publish:1"}, {c}}})
+		}
+		add(Program{Cfg: cfgBoth, Init: st.init, Threads: [][]string{{"Publish:2"}, {"Consume:-2,40"}, {"Delete:1"}}})
+		add(Program{Cfg: keep(cfgBoth), Init: st.init, Threads: [][]string{{"Publish:1"}, {"Delete:1"}, {"Delete:0"}}})
+	}
 	return ps
 }
 
